@@ -467,6 +467,16 @@ func (ex *executor) applyContract(st *state, c *Contract, key string, names []st
 			vars[n] = args[i]
 		}
 	}
+	// a parameter of the callee renamed since the baseline: the contract's (old) name denotes the same argument
+	if cfn := ex.eng.lookupFunc(key); cfn != nil {
+		for o, n := range ex.eng.renamedLocals(key, cfn) {
+			if v, ok := vars[n]; ok {
+				if _, clash := vars[o]; !clash {
+					vars[o] = v
+				}
+			}
+		}
+	}
 	env := &specEnv{ex: ex, st: st, old: pre, vars: vars, pkgPath: pkgPath, calleeCtx: true}
 	env.callID = FreshVar("callid", BV(64))
 	short := shortFnKey(key)
